@@ -15,11 +15,12 @@ RULE = ('Inputs: arbitrary Unicode spliced into valid texts and standalone, rand
         'sampled, by a fresh parser object and the module-level convenience function; the outcome must be an AST or '
         'a documented error class, identical across histories, within 2e6 Python calls, with no I/O audit events. '
         'Non-trivial = input of >= 3 tokens; distinct = (entry point, token-kind sequence, outcome class).')
-RULE_ADDED = ' Since the seeding rounds: whitespace-twin groups (incl. unusual escapes), numeric extremes, unit swaps on time bounds, duplicate annotations, human-written corpus at all entry points.'
+RULE_ADDED = ' Since the seeding rounds: whitespace-twin groups (incl. unusual escapes), numeric extremes, unit swaps on time bounds, duplicate annotations, human-written corpus at all entry points, per-parse CPU-time budget.'
 ASSUMPTIONS = [
     'ValueError is licensed only when the text applies a name that is not a built-in function',
-    'termination is restated as a logical step budget (2e6 Python function calls for <= 60 tokens); a wall-clock '
-    'watchdog firing is inconclusive, not a violation',
+    'termination is restated as bounded progress: a logical step budget (2e6 Python function calls for <= 60 tokens) '
+    'and 20 s of the process\'s own user CPU time per parse (ITIMER_VIRTUAL, load-independent; usual cost: '
+    'milliseconds); a wall-clock watchdog firing is inconclusive, not a violation',
     'RecursionError beyond nesting depth 25 is outside the stated bound and skipped',
 ]
 FLOORS = {
@@ -32,6 +33,7 @@ FLOORS = {
 }
 BUDGET = {'quick': 40000, 'thorough': 1000000}
 STEP_BUDGET = 2_000_000
+CPU_BUDGET = 20.0  # seconds of user CPU time per parse (usual: milliseconds)
 LEVELS = ('specification', 'property', 'predicate', 'condition', 'expression')
 CALL_RE = re.compile(r'([A-Za-z_][A-Za-z0-9_]*)\s*\(')
 UNICODE_POOL = ['\u0000', '﻿', '‏', '‮', 'é', 'ß', '世', '𝔘', '\U0001F600', '́', '\x7f', '\x1b',
@@ -233,6 +235,7 @@ def run(ctx):
     batch = 400
     done = 0
     first = True
+    slow = set()  # (level, text) that used up the CPU budget once: not parsed again
     while done < n:
         inputs = make_inputs(rng, min(batch, n - done))
         done += len(inputs)
@@ -259,7 +262,14 @@ def run(ctx):
                 if measure:
                     steps.start()
                 try:
-                    o = hplapi.outcome(parsers[level][h].parse, text)
+                    if (level, text) in slow:
+                        o = ('raise', monitors.CpuBudgetExceeded())
+                    else:
+                        with monitors.CpuBudget(CPU_BUDGET):
+                            o = hplapi.outcome(parsers[level][h].parse, text)
+                except monitors.CpuBudgetExceeded as ex:
+                    slow.add((level, text))
+                    o = ('raise', ex)
                 finally:
                     if measure:
                         used = steps.stop()
@@ -293,6 +303,10 @@ def run(ctx):
                 if results[h][i] != k0:
                     ctx.violation('history-dependence', {'level': level, 'text': text, 'a': repr(k0)[:300],
                                                          'b': repr(results[h][i])[:300], 'history': h}, feats)
+            if cls == 'CpuBudgetExceeded':
+                ctx.violation('no-result-within-cpu-budget', {'level': level, 'text': text, 'origin': origin,
+                                                              'cpu_seconds': CPU_BUDGET, 'characters': len(text)}, feats)
+                continue
             if cls != 'ok':
                 allowed = cls in ('HplSyntaxError', 'HplSanityError', 'TypeError')
                 if cls == 'ValueError':
@@ -306,11 +320,17 @@ def run(ctx):
                                   feats + ('exc:' + cls,))
             # fresh parser object / convenience function (sampled: building a parser is expensive)
             if rng.random() < 0.012:
-                o = hplapi.outcome(conv[level], text)
+                try:
+                    with monitors.CpuBudget(CPU_BUDGET):
+                        o = hplapi.outcome(conv[level], text)
+                except monitors.CpuBudgetExceeded as ex:
+                    o = ('raise', ex)
                 ctx.count('fresh_parser_comparisons')
                 if outcome_key(o) != k0:
                     ctx.violation('history-dependence', {'level': level, 'text': text, 'fresh': True,
                                                          'a': repr(k0)[:300], 'b': repr(outcome_key(o))[:300]}, feats)
+        if len(slow) >= 3:
+            break  # every further such input costs the whole budget again; the violations are already recorded
     if monitors.AUDIT.events:
         ctx.begin_case(())
         ctx.violation('io-during-parse', dict(monitors.AUDIT.events), ())
